@@ -61,6 +61,7 @@ type Exec struct {
 	varCache map[int][]int
 	ufIdx    map[string]int
 	stateSeq int
+	crossN   int
 	HarnessPkg *ssa.Package
 	intrinsics map[string]intrinsic
 	rtErrType  types.Type
@@ -554,6 +555,51 @@ func (ex *Exec) checkFinal(as []*Term, want []*Term) (Result, map[int]*big.Int) 
 		}
 	}
 	return ex.tryKinds(kinds, true, as, want)
+}
+
+// crossBudget: in the thorough tier (or with VERIF_CROSS=1) the first 400 non-trivial unsat verdicts of an
+// entry are cross-checked.
+func (ex *Exec) crossBudget() bool {
+	if ex.Tier != "thorough" && os.Getenv("VERIF_CROSS") == "" {
+		return false
+	}
+	if ex.crossN >= 400 {
+		return false
+	}
+	ex.crossN++
+	return true
+}
+
+// crossCheck re-decides an obligation with back ends other than the primary (fresh, short timeout).
+func (ex *Exec) crossCheck(as []*Term) Result {
+	for _, kind := range []string{"cvc5-int", "z3-new", "z3"} {
+		if kind == ex.primary {
+			continue
+		}
+		key := kind + "/cross"
+		s := ex.extra[key]
+		if s == nil {
+			var err error
+			s, err = NewSolver(ex.Ctx, kind, 20*time.Second)
+			if err != nil {
+				continue
+			}
+			if ex.extra == nil {
+				ex.extra = map[string]*Solver{}
+			}
+			ex.extra[key] = s
+		}
+		before := len(s.Errors)
+		r, _ := s.Check(as, nil)
+		if len(s.Errors) != before {
+			s.Errors = s.Errors[:before] // an error of the second solver is an undecided cross-check, not a failed run
+			continue
+		}
+		if r != Unknown {
+			return r
+		}
+	}
+	return Unknown
 }
 
 func (ex *Exec) closeSolvers() {
